@@ -74,7 +74,8 @@ vlib.standard_check({
                             "observations_postprocess_threw_all_selections_in_range": t.get("obs_postprocess_threw_all_in_range", 0),
                             "statement_histogram": t.get("hist", {})},
     "rule": "programs generated from the seed over the AST of C05/Model.lean (declarations, defaults, assignments to whole signals / slices / bits / "
-            "dynamic bits, parts and slices incl. nested selections, operators, IF / ELSE / ELSEIF / two-scope ELSE IF chains that often repeat a condition "
+            "dynamic bits, parts and slices incl. nested selections, operators, width-less variables from integer literals / zext / oext (UInt and SInt) re-assigned "
+            "wider / narrower / equal literals and each other inside and outside IF / ELSE with copies and comparisons, the alias-cache pattern, IF / ELSE / ELSEIF / two-scope ELSE IF chains that often repeat a condition "
             "signal, nesting to the given depth, locals inside scopes) + 1/40 malformed programs the frontend must reject; each program is executed against the "
             "real frontend (ConditionalScope objects on the C++ stack), simulated for all input valuations (<= 10 input bits, random sample otherwise) before and "
             "after postprocess(); every valuation is compared with the sequential interpreter (PROPFAIL) and with eval(build) of the Lean model (DIFF); "
@@ -89,7 +90,10 @@ vlib.standard_check({
                   "model tied to the code by differential execution of generated programs on the real frontend, before and after postprocess(). "
                   "Exceptions thrown by postprocess() are counted observations (OBS), not verdicts; a value changed by postprocess() is reported.",
     "assumptions": ["C++ control flow around the macros (loops, early exits, exceptions inside a scope), Compound/struct assignment, registers/EnableScope, "
-                    "SInt/BVec, signal width growth and reads of never-driven signals (loop semantics) are not modelled",
+                    "BVec, SInt beyond literal-initialised variables (compare / assign), reads of never-driven signals (loop semantics) are not modelled",
+                    "width-less variables (integer literals, zext/oext; width growth) are modelled by buildX/runX (C05/ModelX.lean, sequential semantics on integers) and "
+                    "covered by correspondence plus the statement-level theorems C05_int_padding_preserves_integer / C05_int_conditional_assign; the program-level "
+                    "theorem C05_sequential is about the fixed-width fragment (build/run)",
                     "operators are abstract (same semantics in interpreter and netlist): C03's business",
                     "defaults: only Bit (UIntDefault asserts in the frontend); a defaulted signal that is later overwritten unconditionally as a whole is outside the model",
                     "values are two-valued; an out-of-range dynamic index inside a *skipped* block is covered by correspondence (model yields [] where the simulator yields undefined, masked)"],
